@@ -144,7 +144,9 @@ func (f *Frame) enterBlock(b *ssa.BasicBlock) *cursor {
 	for _, inv := range invs {
 		t := f.evalInvariant(inv, li, entryEnv, st, nil)
 		if t.S != "" {
-			e.addOblig("inv-entry", inv.Name, inv.Props, f.e.P.position(b.Instrs[0].Pos()), reach, t)
+			if o := e.addOblig("inv-entry", inv.Name, f.invProps(inv), f.e.P.position(b.Instrs[0].Pos()), reach, t); o != nil && inv.Gen != nil {
+				o.auto = inv
+			}
 		}
 	}
 	// 2. havoc
@@ -187,7 +189,9 @@ func (f *Frame) closeBackEdge(c *cursor, from, h *ssa.BasicBlock, cond Term) {
 	for _, inv := range f.loopInvariants(li) {
 		t := f.evalInvariant(inv, li, env, c.st, nil)
 		if t.S != "" {
-			e.addOblig("inv-step", inv.Name, inv.Props, e.P.position(h.Instrs[0].Pos()), reach, t)
+			if o := e.addOblig("inv-step", inv.Name, f.invProps(inv), e.P.position(h.Instrs[0].Pos()), reach, t); o != nil && inv.Gen != nil {
+				o.auto = inv
+			}
 		}
 	}
 	for _, dec := range f.loopVariants(li) {
@@ -656,6 +660,8 @@ func (f *Frame) execFieldAddr(c *cursor, x *ssa.FieldAddr) {
 	ref := f.val(x.X)
 	if _, isAlloc := x.X.(*ssa.Alloc); !isAlloc {
 		f.guard(c, "nil", x, not(eq(ref, intLit(0))))
+		// visible-state semantics: objects satisfy their type invariant at every access
+		f.refInvariant(ref, x.X.Type(), st)
 	}
 	if _, ok := ft.Underlying().(*types.Struct); ok {
 		f.setVal(x, e.embRef(ref, stT, x.Field))
@@ -965,10 +971,16 @@ func (f *Frame) execNext(c *cursor, x *ssa.Next) {
 	}
 	// map iteration: arbitrary order, abstracted
 	ok := e.declare(f.name(x)+".ok", SBool)
-	k := e.declare(f.name(x)+".k", e.sortOf(tt.At(1).Type()))
-	v := e.declare(f.name(x)+".v", e.sortOf(tt.At(2).Type()))
-	f.typeFacts(k, tt.At(1).Type(), st)
-	f.typeFacts(v, tt.At(2).Type(), st)
+	kt, vt := tt.At(1).Type(), tt.At(2).Type()
+	if rng != nil {
+		if mt, isMap := rng.X.Type().Underlying().(*types.Map); isMap {
+			kt, vt = mt.Key(), mt.Elem()
+		}
+	}
+	k := e.declare(f.name(x)+".k", e.U.sortOf(kt, false))
+	v := e.declare(f.name(x)+".v", e.U.sortOf(vt, false))
+	f.typeFacts(k, kt, st)
+	f.typeFacts(v, vt, st)
 	if rng != nil {
 		if mt, isMap := rng.X.Type().Underlying().(*types.Map); isMap {
 			ks, vs := e.U.sortOf(mt.Key(), false), e.U.sortOf(mt.Elem(), false)
@@ -1004,4 +1016,11 @@ func (f *Frame) unboxedNonNil(d Term, x *ssa.TypeAssert) {
 	if _, _, sp := isStructPtr(x.AssertedType); sp {
 		f.e.assume(not(eq(d, intLit(0))), d.S)
 	}
+}
+
+func (f *Frame) invProps(inv *Clause) []string {
+	if inv.Props != nil {
+		return inv.Props
+	}
+	return f.props
 }
